@@ -859,6 +859,9 @@ comsgVError(AbSyn ab, Msg msg, va_list argp)
 {
 	CoMsg comsg;
 
+	/* Outside a comsgInit/comsgFini bracket comsgVDo starts one, which
+	 * clears the counts: start it before this error is counted. */
+	comsgInit();
 	nErrors++;
 	comsg = comsgVDo(COMSG_ERROR, ab, msg, argp);
 	
